@@ -308,3 +308,25 @@ Proof.
     rewrite String.eqb_refl. destruct e; reflexivity. }
   rewrite H in Hna. discriminate.
 Qed.
+
+(* ---- justified traces stay inside [Reach]; hence the effect theorems cover everything that ran ------------ *)
+Lemma justified_reach g off roots tr :
+  Justified g off roots tr -> forall x, In x tr -> Reach g off roots x.
+Proof.
+  induction 1 as [|x tr _ IH Hx]; intros y Hy; [destruct Hy|].
+  destruct Hy as [<-|Hy]; [|exact (IH y Hy)].
+  destruct Hx as [->|[Hr|[a [c [ls [Hin [Hl [Ha Hc]]]]]]]].
+  - apply Reach_top.
+  - apply Reach_root; exact Hr.
+  - apply (Reach_edge g off roots a x c ls Hin Hl).
+    + destruct Ha as [->|Ha]; [apply Reach_top | exact (IH a Ha)].
+    + destruct Hc as [->|Hc]; [apply Reach_top | exact (IH c Hc)].
+Qed.
+
+Theorem justified_trace_effects g effs off roots forb allow tr :
+  NoReachableEffect g effs off roots forb allow -> Justified g off roots tr ->
+  forall f e ls nm, In f tr -> In (f, e, ls, nm) effs -> (forall l, In l ls -> ~ In l off) -> forb e = true ->
+    In (nm, e) allow.
+Proof.
+  intros HN HJ f e ls nm Hf Hin Hl Hfo. apply (HN f e ls nm Hin (justified_reach g off roots tr HJ f Hf) Hl Hfo).
+Qed.
